@@ -20,3 +20,25 @@ open NsyncVerif.MuC
 #print axioms C06_samecond_ring_full_refuted
 #print axioms C06_samecond_ring_partial
 #print axioms not_midScan
+#print axioms C06_samecond_ring_sound
+#print axioms C06_skip_sound
+#print axioms C06_hint_all_false
+#print axioms C06_hint
+#print axioms C06_true_cond_has_responsible
+#print axioms C06_desig_waker_justified
+#print axioms quiescent_sleeper_queued
+#print axioms quiescent_not_resp
+#print axioms C06_no_missed_cond
+#print axioms C06_no_stuck_state_partial
+#print axioms C06_quiescent_witness
+#print axioms C06_no_stuck_state_old_code_witness
+#print axioms C06_no_missed_cond_old_code_witness
+#print axioms C06_without_wakeup_sound_full_refuted
+#print axioms C06_without_wakeup_sound
+#print axioms C06_without_wakeup_no_missed
+#print axioms reachable_inv6
+#print axioms reachable_inv7
+#print axioms reachable_inv8
+#print axioms reachable_inv9
+#print axioms reachable_inv10
+#print axioms reachable_inv11
